@@ -16,8 +16,9 @@ claim("C01",
       "DESIGN.md section 6 C01")
 claim("C04",
       "Theorems (Coq, unbounded): the greedy assignment assign_pages (port of _assign_pages) satisfies the boolean "
-      "check_assign for every metadata list, budget and new_page flag (break only if forced or overflowing; forced "
-      "rows always break), pages are numbered in steps of 0/1 from 1, the accounting never overflows except on "
+      "check_assign for every metadata list, budget and new_page flag (break only if forced or overflowing; forced or "
+      "overflowing rows always break) and, when every row occupies at least one line, is the only page list that does "
+      "(C04_check_unique); pages are numbered in steps of 0/1 from 1, the accounting never overflows except on "
       "single-row pages, and appending rows leaves earlier pages unchanged - C04_append_rows carries this through the row "
       "metadata (K2): the metadata of the first n frame rows, hence their page numbers, do not depend on appended rows. The same check_assign is evaluated on the "
       "page membership of tagged rows read back from rtf_encode(); the model's page list must equal the implementation's.",
@@ -136,8 +137,9 @@ claim("C07",
       "rtf_page.border_last at the end) lands on every cell of the last data row, or on the table-rendered "
       "footnote/source shown there (source first); the first data row's top gets rtf_page.border_first on a first page "
       "without rendered header and rtf_body.border_first at every other page start; update_cell changes exactly one cell "
-      "of the broadcast grid. Against the implementation: border styles of the first/last table row of the document and "
-      "of every page read back from the output, over all border choices x header modes x footnote/source "
+      "of the broadcast grid; every other top / bottom edge keeps the user's value of the cell's original row and the "
+      "left / right edges, colours and widths are untouched (C07_interior_top / _bottom, C07_sides_untouched). Against the implementation: border styles of the first/last table row of the document and "
+      "of every page and the four border styles of every other data cell read back from the output, over all border choices x header modes x footnote/source "
       "(table/paragraph/absent) x placements x strategies.",
       "Known finding C07-border-top-override (per-column border_top replaces border_first on page-first rows) is reported "
       "as KNOWN-FINDING and witnessed by C07_refuted_border_top_override; header-row top border is checked differentially only.",
